@@ -20,6 +20,7 @@ type modelState struct {
 	symbolicMapOrder bool
 	manualClock      bool
 	preemptive       bool
+	fixedSched       bool
 	lockOrder        []int // logical goroutine ids in the order they acquired the package's mutexes
 	expectPanic      []string
 	observe          []string
@@ -401,6 +402,12 @@ func registerAPIModels() {
 	}
 	apiModels["verifRepeatNative"] = func(it *Interp, fr *frame, fn *ssa.Function, args []Value) Value {
 		return mkInt(1)
+	}
+	// verifFixedSchedule(on): stop exploring scheduler choices (the first runnable
+	// goroutine always runs next); for harnesses whose subject is not the interleaving.
+	apiModels["verifFixedSchedule"] = func(it *Interp, fr *frame, fn *ssa.Function, args []Value) Value {
+		it.mstate.fixedSched = args[0].(*Term).isTrue()
+		return nil
 	}
 	apiModels["verifDebug"] = func(it *Interp, fr *frame, fn *ssa.Function, args []Value) Value {
 		if os.Getenv("SYMGO_DEBUG") != "" {
